@@ -480,6 +480,10 @@ func TypedValueToString(tv *sdcpb.TypedValue) string {
 		return string(tv.GetBytesVal()) // questionable...
 	case *sdcpb.TypedValue_DecimalVal:
 		d := tv.GetDecimalVal()
+		if d.GetPrecision() > 18 {
+			// not a decimal64 (1..18 fraction digits): do not pad up to the claimed precision
+			return strconv.FormatInt(d.GetDigits(), 10) + "e-" + strconv.FormatUint(uint64(d.GetPrecision()), 10)
+		}
 		digitsStr := strconv.FormatInt(d.Digits, 10)
 		negative := false
 		if d.Digits < 0 {
